@@ -335,7 +335,8 @@ func (v *variablesVisitor) traverseFieldDefinitionType(fieldTypeDefinitionNodeKi
 			}
 
 			// An undefined required input field is valid if it has a default value
-			if v.definition.InputValueDefinitionHasDefaultValue(inputFieldRef) {
+			// (an explicit null is not: the default only applies when the field is absent)
+			if jsonValue == nil && v.definition.InputValueDefinitionHasDefaultValue(inputFieldRef) {
 				return
 			}
 			v.renderVariableRequiredNotProvidedError(fieldName, typeRef)
